@@ -76,7 +76,7 @@ func init() {
 		Jobs: []Job{
 			{Name: "history", Run: "^TestHistory$", Checks: [2]int{800, 5000}, Shards: [2]int{8, 16}},
 			{Name: "spawnhistory", Run: "^TestSpawnHistory$", Checks: [2]int{60, 400}, Shards: [2]int{4, 8}},
-			{Name: "argorder", Run: "^TestTableArgumentOrder$", Shards: [2]int{2, 4}},
+			{Name: "argorder", Run: "^(TestTableArgumentOrder|TestTableReturnFromOperandPosition)$", Shards: [2]int{2, 4}},
 		}})
 }
 
